@@ -30,7 +30,9 @@ class SerializeTraits<::std::vector<T, A>>
 #if ABSL_IS_LITTLE_ENDIAN
     if CONSTEXPR_SINCE_CXX17 (::std::is_same<float, T>::value ||
                               ::std::is_same<double, T>::value) {
-      os.WriteRaw(value.data(), value.size() * sizeof(T));
+      if (!value.empty()) {
+        os.WriteRaw(value.data(), value.size() * sizeof(T));
+      }
     } else
 #endif // ABSL_IS_LITTLE_ENDIAN
     {
